@@ -7,7 +7,7 @@ import os
 from .. import vfcore as V
 
 PROP = "C05"
-TARGETS = ["theories/Ring/Proofs.vo"]
+TARGETS = ["theories/Ring/Proofs.vo", "theories/Routing/RingLink.vo"]
 
 
 # ---------------------------------------------------------------- generators
@@ -328,6 +328,6 @@ MANIFEST = {
             "code on every run by running the real proxyIDRingBuffer (white-box, compiled from /repo's working tree) and the extracted "
             "model on the same histories (exhaustive small scope + random) and comparing every aggregation result, count and ordered snapshot; "
             "the abstract list specification is also applied directly to the implementation's outputs as a monitor.",
-    "note": "Trusted: Coq kernel/vm_compute, extraction (ExtrOcamlBasic), the Go overlay harness and diffing. Modelled not verified: Go int64 arithmetic "
+    "note": "Composition: C05_routing_* prove that the id table of the routing model (C01-C04) is this abstract ring, so those theorems speak about the refined circular buffer. Trusted: Coq kernel/vm_compute, extraction (ExtrOcamlBasic), the Go overlay harness and diffing. Modelled not verified: Go int64 arithmetic "
             "is unbounded Z (ids stay far below 2^62); maxSize (debug only) is not modelled.",
 }
